@@ -273,6 +273,9 @@ func c02corpus(r *report.Run) []cItem {
 	items = append(items, fu...)
 	r.Set("items_fusion_packages", len(fu))
 	items = append(items, corpusWide(cWideWidths(thorough))...)
+	calls := corpusCalls() // C07's statement forms: calls in every expression position, hidden-slot paths, builtins
+	items = append(items, calls...)
+	r.Set("items_call_forms", len(calls))
 	n4 := corpusC04(thorough, 6)
 	items = append(items, n4...)
 	maxN6, fl6, maxN8, d11, f12, l18 := 5, 2, 4, 3, 40, 4
@@ -314,7 +317,7 @@ func c02observeAll(items []cItem, optimize bool, dumps []map[string]int, deadlin
 }
 
 func c02run(r *report.Run) {
-	r.Rule("every corpus program (harvested test-table inputs and file trees; fusion-window templates = 22 expression and 22 statement windows x operand types x 13 + 12 syntactic neighbourhoods incl. near misses; wide-frame programs; all C04 numeric forms with spread operands; the C06, C08, C11, C12, C18 corpora) executed by the real Load/Eval/Call with the optimizer switch off and on; non-trivial = program whose optimized code contains at least one fused opcode")
+	r.Rule("every corpus program (harvested test-table inputs and file trees; fusion-window templates = 22 expression and 22 statement windows x operand types x 13 + 12 syntactic neighbourhoods incl. near misses; wide-frame programs; the call and statement forms of C07 (calls in every expression position, targets and receivers evaluated through hidden slots, builtins); all C04 numeric forms with spread operands; the C06, C08, C11, C12, C18 corpora) executed by the real Load/Eval/Call with the optimizer switch off and on; non-trivial = program whose optimized code contains at least one fused opcode")
 	r.Assume("the optimizer switch makes compiler.optimize the identity (the !c.Optimize branch); each run asserts no fused opcode appears with the switch off and every fused opcode appears with it on", "inputs mentioning rand./time./os. are excluded (nondeterministic)", "values whose text contains addresses (functions) are compared by type only")
 	items := c02corpus(r)
 	r.Set("corpus_items", len(items))
